@@ -3,6 +3,8 @@ mod c11;
 mod c15;
 mod world;
 mod rules;
+mod ir;
+mod c03;
 
 fn main() {
     let args: Vec<String> = std::env::args().collect();
@@ -42,6 +44,7 @@ fn main() {
         "C11" => c11::run(&outdir, seed, thorough),
         "C15" => c15::run(&outdir, seed, thorough),
         "C13" | "C02" => rules::run(&prop, &outdir, seed, thorough),
+        "C03" => c03::run(&outdir, seed, thorough),
         "GEN-RULES" => { if let Err(e) = rules::generate(&outdir) { eprintln!("{}", e); std::process::exit(1); } return; }
         _ => { eprintln!("unknown property {}", prop); std::process::exit(2); }
     };
